@@ -613,10 +613,10 @@ fn x509_case(seed: u64, ev: &Evidence) -> CaseResult {
 pub fn run(ctx: &Ctx) -> ! {
     let ev = Evidence::new(P, ctx.tier, ctx.seed, "exploration");
     ev.set_rule(
-        "(1) primitives: for every provider pair and common cipher suite, generated inputs with lengths 0, 1, block/hash boundaries +-1 and up to 4 KiB: hash, MAC, KDF extract/expand (incl. 255*Nh and 255*Nh+1), \
+        "(1) primitives: for every provider pair and common cipher suite, generated inputs with lengths 0, 1, block/hash boundaries +-1 and up to 4 KiB: hash, MAC, KDF extract/expand (incl. 255*Nh and 255*Nh+1, PRKs longer than Nh), \
          AEAD seal (byte equality), deterministic KEM derivation and signature public-key derivation (byte equality); sign/verify, HPKE one-shot in base and PSK mode, HPKE contexts with export (cross-operation both ways); \
          identical accept/reject on modified tags and signatures, truncated ciphertexts, wrong key / nonce lengths, malformed public and secret keys (wrong length, flipped bits, all-zero). \
-         (2) X.509: chains of 1-4 P-256 certificates generated with OpenSSL in the classes valid, expired, not yet valid, wrong issuer signature, missing intermediate, reordered intermediates, non-CA issuer, unknown root, \
+         (2) X.509: chains of 1-4 P-256 certificates generated with OpenSSL in the classes valid, expired, not yet valid, wrong issuer signature, missing intermediate, reordered intermediates, non-CA issuer (CA:FALSE, or no BasicConstraints at all), unknown root, \
          extra unrelated certificate, validated by all three shipped validators at not_before-1, not_before, mid, not_after, not_after+1 and without time: every verdict must equal the ground truth of the class (for the extra-unrelated-certificate class, which the property does not list, only equality of the three verdicts is demanded). \
          (3) mixed-provider groups: C01-style histories with members on different providers (agreement + cross-decryption oracle). Non-trivial = primitive case with non-empty info/aad or a negative input, X.509 case at a \
          validity boundary or of a defect class, mixed-provider history with >= 2 commits.",
